@@ -34,6 +34,9 @@ type Heredoc struct {
 	Quoted    bool     `json:"quoted,omitempty"`
 	Lines     [][]Part `json:"lines"`              // body lines (without the newline); parts are lit only when Quoted
 	TabTerm   bool     `json:"tab_term,omitempty"` // <<- : terminator line indented with a tab
+	// ContTerm k > 0 (unquoted delimiters only): the terminator line is written with a
+	// backslash-newline after its k-th character (after the last one: an empty line follows)
+	ContTerm int `json:"cont_term,omitempty"`
 }
 
 type Redir struct {
